@@ -1,25 +1,36 @@
+(* RandomSerialDictatorship.scf (randomized_allocation.py:35-48): the drawn order is an argument.
+   pref is the profile with the columns of taken items blanked; np.nanargmin = first index of the
+   minimal non-NaN rank. *)
 From Coq Require Import ZArith List Bool Lia.
 Import ListNotations.
 Local Open Scope Z_scope.
 
-(* RandomSerialDictatorship.scf: the drawn order is an argument *)
 Definition memn (x : nat) (l : list nat) : bool := existsb (Nat.eqb x) l.
 Fixpoint upd {A} (l : list A) (i : nat) (x : A) : list A :=
   match l, i with [], _ => [] | _ :: r, O => x :: r | y :: r, S j => y :: upd r j x end.
-(* np.nanargmin over the not-yet-blanked entries: first index of the minimum *)
-Definition best_remaining (row : list (option Z)) (taken : list nat) : option nat :=
-  fold_left (fun best jr => let '(j, r) := jr in
-               match r with
-               | None => best
-               | Some rk => if memn j taken then best else
-                            match best with None => Some j
-                            | Some b => match nth b row None with Some rb => if rk <? rb then Some j else best | None => Some j end end
-               end) (combine (seq 0 (length row)) row) None.
+
+(* scan of one row from column j on; best = (column, rank) of the current minimum *)
+Fixpoint best_from (row : list (option Z)) (taken : list nat) (j : nat) (best : option (nat * Z)) : option (nat * Z) :=
+  match row with
+  | [] => best
+  | r :: t =>
+    let best' := match r with
+                 | None => best
+                 | Some rk => if memn j taken then best else
+                              match best with None => Some (j, rk) | Some (_, rb) => if rk <? rb then Some (j, rk) else best end
+                 end in
+    best_from t taken (S j) best'
+  end.
+Definition best_remaining (row : list (option Z)) (taken : list nat) : option nat := option_map fst (best_from row taken 0 None).
+
+Definition rsd_step (P : list (list (option Z))) (fixer : Z) (st : list (option Z) * list nat) (a : nat) : list (option Z) * list nat :=
+  let '(alloc, taken) := st in
+  match best_remaining (nth a P []) taken with
+  | None => st
+  | Some item => (upd alloc a (Some (Z.of_nat item + fixer)), item :: taken)
+  end.
 Definition rsd (P : list (list (option Z))) (order : list nat) (fixer : Z) : list (option Z) :=
-  fst (fold_left (fun st a => let '(alloc, taken) := st in
-                    match best_remaining (nth a P []) taken with
-                    | None => st
-                    | Some item => (upd alloc a (Some (Z.of_nat item + fixer)), item :: taken)
-                    end) order (repeat None (length P), [])).
+  fst (fold_left (rsd_step P fixer) order (repeat None (length P), [])).
+
 Definition oz_eqb (a b : option Z) : bool := match a, b with Some x, Some y => x =? y | None, None => true | _, _ => false end.
 Definition alloc_eqb (a b : list (option Z)) : bool := (length a =? length b)%nat && forallb (fun p => oz_eqb (fst p) (snd p)) (combine a b).
